@@ -540,3 +540,231 @@ Section WallCentres.
     apply (mid_grid_above _ _ _ j); [apply tlt_le, wall_real_size_pos; now right|apply cell_centre_v|exact Hj].
   Qed.
 End WallCentres.
+
+(** ** 6. the box [x0,x1] x [y0,y1] x [z0,z1] and its six inward-facing walls *)
+Section Box.
+  Context {T : Type} {O : Ops T} {RL : RingLaws T} {OL : OrderLaws T} {FL : FieldLaws T}
+          {FlL : FloorLaws T} {SL : SqrtLaws T}.
+  Add Ring TRingShoebox5 : (@ring_th T O RL).
+  Local Notation vec := (@vec T).
+  Local Open Scope T_scope.
+
+  Variables (x0 x1 y0 y1 z0 z1 : T).
+
+  (** the wall in the plane [axis f = c] *)
+  Definition sb_quad (f : nat) (c : T) : @quad T :=
+    match f with
+    | 0%nat => mkQuad (mkv c y0 z0) (mkv c y0 z1) (mkv c y1 z1) (mkv c y1 z0)
+    | 1%nat => mkQuad (mkv x0 c z0) (mkv x1 c z0) (mkv x1 c z1) (mkv x0 c z1)
+    | _ => mkQuad (mkv x0 y0 c) (mkv x1 y0 c) (mkv x1 y1 c) (mkv x0 y1 c)
+    end.
+  Definition sb_lo (a : nat) : T := match a with 0%nat => x0 | 1%nat => y0 | _ => z0 end.
+  Definition sb_hi (a : nat) : T := match a with 0%nat => x1 | 1%nat => y1 | _ => z1 end.
+  (** [s = true]: the wall at the lower end of axis f, normal +e_f; [s = false]: upper end, -e_f *)
+  Definition sb_coord (f : nat) (s : bool) : T := if s then sb_lo f else sb_hi f.
+
+  (** walls, normals and up vectors in the order and with the vertex order of
+      [sparrowpy.testing.shoebox_room_stub] (there with x0 = y0 = z0 = 0) *)
+  Definition sb_walls : list (@quad T) :=
+    [ mkQuad (mkv x0 y0 z0) (mkv x1 y0 z0) (mkv x1 y0 z1) (mkv x0 y0 z1);
+      mkQuad (mkv x0 y1 z0) (mkv x1 y1 z0) (mkv x1 y1 z1) (mkv x0 y1 z1);
+      mkQuad (mkv x0 y0 z0) (mkv x1 y0 z0) (mkv x1 y1 z0) (mkv x0 y1 z0);
+      mkQuad (mkv x0 y0 z1) (mkv x1 y0 z1) (mkv x1 y1 z1) (mkv x0 y1 z1);
+      mkQuad (mkv x0 y0 z0) (mkv x0 y0 z1) (mkv x0 y1 z1) (mkv x0 y1 z0);
+      mkQuad (mkv x1 y0 z0) (mkv x1 y0 z1) (mkv x1 y1 z1) (mkv x1 y1 z0) ].
+  Definition sb_normals : list vec :=
+    [ mkv 0 1 0; mkv 0 (- (1)) 0; mkv 0 0 1; mkv 0 0 (- (1)); mkv 1 0 0; mkv (- (1)) 0 0 ].
+  Definition sb_ups : list vec :=
+    [ mkv 1 0 0; mkv 1 0 0; mkv 1 0 0; mkv 1 0 0; mkv 0 0 1; mkv 0 0 1 ].
+
+  Definition sb_f (w : nat) : nat := match w with 0%nat | 1%nat => 1 | 2%nat | 3%nat => 2 | _ => 0 end%nat.
+  Definition sb_s (w : nat) : bool := Nat.even w.
+  Definition sb_c (w : nat) : T := sb_coord (sb_f w) (sb_s w).
+
+  Lemma lt6_cases (w : nat) : (w < 6)%nat -> w = 0%nat \/ w = 1%nat \/ w = 2%nat \/ w = 3%nat \/ w = 4%nat \/ w = 5%nat.
+  Proof. lia. Qed.
+
+  Lemma sb_walls_nth (w : nat) : (w < 6)%nat -> nth w sb_walls dquad = sb_quad (sb_f w) (sb_c w).
+  Proof. intros H. destruct (lt6_cases w H) as [->|[->|[->|[->|[->| ->]]]]]; reflexivity. Qed.
+
+  Lemma sb_normals_nth (w : nat) : (w < 6)%nat -> nthv sb_normals w = axis_normal (ax_of (sb_f w)) (sb_s w).
+  Proof. intros H. destruct (lt6_cases w H) as [->|[->|[->|[->|[->| ->]]]]]; reflexivity. Qed.
+
+  Lemma sb_f_lt (w : nat) : (sb_f w < 3)%nat.
+  Proof. destruct w as [|[|[|[|w]]]]; cbn [sb_f]; lia. Qed.
+
+  (** different walls differ in the axis or in the side *)
+  Lemma sb_wall_inj (w w' : nat) : (w < 6)%nat -> (w' < 6)%nat -> sb_f w = sb_f w' -> sb_s w = sb_s w' -> w = w'.
+  Proof.
+    intros H H'. destruct (lt6_cases w H) as [->|[->|[->|[->|[->| ->]]]]];
+      destruct (lt6_cases w' H') as [->|[->|[->|[->|[->| ->]]]]];
+      cbn [sb_f sb_s Nat.even]; intros E1 E2; try reflexivity; try discriminate.
+  Qed.
+
+  Lemma plane_axes_facts (f : nat) : (f < 3)%nat ->
+    (px f < 3)%nat /\ (py f < 3)%nat /\ px f <> f /\ py f <> f /\
+    (forall a, (a < 3)%nat -> a <> f -> a = px f \/ a = py f).
+  Proof.
+    intros Hf. destruct f as [|[|[|f]]]; try lia; unfold px, py, plane_axes; cbn [fst snd];
+      (split; [lia|]; split; [lia|]; split; [lia|]; split; [lia|]; intros a Ha Na; lia).
+  Qed.
+
+  (** coordinates by axis index and by [axis] *)
+  Lemma vget_axis (f : nat) (x : vec) : (f < 3)%nat ->
+    vget x f = ccoord (ax_of f) x /\ vget x (px f) = ucoord (ax_of f) x /\ vget x (py f) = vcoord (ax_of f) x.
+  Proof. intros Hf. destruct f as [|[|[|f]]]; try lia; repeat split; reflexivity. Qed.
+
+  Hypothesis Hx : x0 < x1.
+  Hypothesis Hy : y0 < y1.
+  Hypothesis Hz : z0 < z1.
+
+  Lemma sb_lo_lt_hi (a : nat) : sb_lo a < sb_hi a.
+  Proof. destruct a as [|[|a]]; assumption. Qed.
+
+  Lemma col_min_two (q : @quad T) (a : nat) (lo hi : T) :
+    lo <= hi -> (forall v, In v (verts q) -> vget v a = lo \/ vget v a = hi) ->
+    (exists v, In v (verts q) /\ vget v a = lo) -> col_min q a = lo.
+  Proof.
+    intros L All (v & Hv & E). apply tle_antisym.
+    - rewrite <- E. now apply col_min_le.
+    - destruct (col_min_in q a) as (v' & Hv' & ->). destruct (All v' Hv') as [-> | ->]; [apply tle_refl|exact L].
+  Qed.
+
+  Lemma col_max_two (q : @quad T) (a : nat) (lo hi : T) :
+    lo <= hi -> (forall v, In v (verts q) -> vget v a = lo \/ vget v a = hi) ->
+    (exists v, In v (verts q) /\ vget v a = hi) -> col_max q a = hi.
+  Proof.
+    intros L All (v & Hv & E). apply tle_antisym.
+    - destruct (col_max_in q a) as (v' & Hv' & ->). destruct (All v' Hv') as [-> | ->]; [exact L|apply tle_refl].
+    - rewrite <- E. now apply col_max_ge.
+  Qed.
+
+  Lemma sb_verts_two (f : nat) (c : T) (a : nat) : (f < 3)%nat -> (a < 3)%nat -> a <> f ->
+    forall v, In v (verts (sb_quad f c)) -> vget v a = sb_lo a \/ vget v a = sb_hi a.
+  Proof.
+    intros Hf Ha Na v Hv.
+    destruct f as [|[|[|f]]]; try lia; destruct a as [|[|[|a]]]; try lia;
+      cbn [sb_quad verts q0 q1 q2 q3 In] in Hv;
+      destruct Hv as [<-|[<-|[<-|[<-|[]]]]]; cbn [vget sb_lo sb_hi]; auto.
+  Qed.
+
+  Lemma sb_verts_lo (f : nat) (c : T) (a : nat) : (f < 3)%nat -> (a < 3)%nat -> a <> f ->
+    exists v, In v (verts (sb_quad f c)) /\ vget v a = sb_lo a.
+  Proof.
+    intros Hf Ha Na. exists (q0 (sb_quad f c)). split; [left; reflexivity|].
+    destruct f as [|[|[|f]]]; try lia; destruct a as [|[|[|a]]]; try lia; reflexivity.
+  Qed.
+
+  Lemma sb_verts_hi (f : nat) (c : T) (a : nat) : (f < 3)%nat -> (a < 3)%nat -> a <> f ->
+    exists v, In v (verts (sb_quad f c)) /\ vget v a = sb_hi a.
+  Proof.
+    intros Hf Ha Na. exists (q2 (sb_quad f c)). split; [right; right; left; reflexivity|].
+    destruct f as [|[|[|f]]]; try lia; destruct a as [|[|[|a]]]; try lia; reflexivity.
+  Qed.
+
+  Lemma sb_col_min (f : nat) (c : T) (a : nat) : (f < 3)%nat -> (a < 3)%nat -> a <> f ->
+    col_min (sb_quad f c) a = sb_lo a.
+  Proof.
+    intros Hf Ha Na. apply (col_min_two _ _ _ (sb_hi a)).
+    - apply tlt_le, sb_lo_lt_hi.
+    - now apply sb_verts_two.
+    - now apply sb_verts_lo.
+  Qed.
+
+  Lemma sb_col_max (f : nat) (c : T) (a : nat) : (f < 3)%nat -> (a < 3)%nat -> a <> f ->
+    col_max (sb_quad f c) a = sb_hi a.
+  Proof.
+    intros Hf Ha Na. apply (col_max_two _ _ (sb_lo a)).
+    - apply tlt_le, sb_lo_lt_hi.
+    - now apply sb_verts_two.
+    - now apply sb_verts_hi.
+  Qed.
+
+  Lemma sb_planar (f : nat) (c : T) : (f < 3)%nat -> planar (sb_quad f c) f c.
+  Proof.
+    intros Hf v Hv. destruct f as [|[|[|f]]]; try lia;
+      cbn [sb_quad verts q0 q1 q2 q3 In] in Hv;
+      destruct Hv as [<-|[<-|[<-|[<-|[]]]]]; reflexivity.
+  Qed.
+
+  Variable p : T.
+  Hypothesis Hp : 0 < p.
+  Hypothesis Hpx : p <= x1 - x0.
+  Hypothesis Hpy : p <= y1 - y0.
+  Hypothesis Hpz : p <= z1 - z0.
+
+  Lemma sb_extent (a : nat) : p <= sb_hi a - sb_lo a.
+  Proof. destruct a as [|[|a]]; assumption. Qed.
+
+  Lemma sb_wall_ok (f : nat) (c : T) : (f < 3)%nat -> wall_ok (sb_quad f c) p f c.
+  Proof.
+    intros Hf. destruct (plane_axes_facts f Hf) as (Px & Py & Nx & Ny & _).
+    split; [exact Hf|]. split; [now apply sb_planar|]. split; [exact Hp|].
+    unfold size. rewrite !sb_col_min, !sb_col_max by assumption. split; apply sb_extent.
+  Qed.
+
+  (** inward signed distance from the plane of wall (f, s) *)
+  Definition wside (f : nat) (s : bool) (x : vec) : T :=
+    if s then vget x f - sb_lo f else sb_hi f - vget x f.
+  (** a rectangle in the plane of wall (f, s), facing inwards *)
+  Definition in_wall (f : nat) (s : bool) (r : @rect T) : Prop :=
+    r_axis r = ax_of f /\ r_up r = s /\ r_c r = sb_coord f s.
+
+  Lemma side_in_wall (f : nat) (s : bool) (r : rect) (x : vec) :
+    (f < 3)%nat -> in_wall f s r -> side_of (rect_surface r) x = wside f s x.
+  Proof.
+    intros Hf (Hax & Hup & Hc). rewrite side_of_rect, Hax, Hup, Hc.
+    destruct (vget_axis f x Hf) as (<- & _). unfold wside, sb_coord, sgn. destruct s; ring.
+  Qed.
+
+  (** the centre of cell (i, j) of wall (f, s) *)
+  Definition sb_centre (f : nat) (s : bool) (i j : nat) : vec :=
+    cell_centre (sb_quad f (sb_coord f s)) p f (sb_coord f s) s i j.
+  Definition sb_cell (f : nat) (s : bool) (i j : nat) : @rect T :=
+    cell_rect (sb_quad f (sb_coord f s)) p f s (sb_coord f s) i j.
+  Definition sb_nu (f : nat) (s : bool) : nat := patch_num (sb_quad f (sb_coord f s)) p (px f).
+  Definition sb_nv (f : nat) (s : bool) : nat := patch_num (sb_quad f (sb_coord f s)) p (py f).
+
+  Lemma sb_cell_in_wall (f : nat) (s : bool) (i j : nat) : in_wall f s (sb_cell f s i j).
+  Proof. repeat split. Qed.
+
+  Lemma sb_centre_own (f : nat) (s : bool) (i j : nat) : (f < 3)%nat -> wside f s (sb_centre f s i j) = 0.
+  Proof.
+    intros Hf. unfold wside. destruct (vget_axis f (sb_centre f s i j) Hf) as (-> & _).
+    unfold sb_centre. rewrite cell_centre_c. unfold sb_coord. destruct s; ring.
+  Qed.
+
+  (** ... is at least half a patch inside with respect to the five other wall planes *)
+  Lemma sb_centre_deep (f : nat) (s : bool) (i j : nat) (f' : nat) (s' : bool) :
+    (f < 3)%nat -> (f' < 3)%nat -> (i < sb_nu f s)%nat -> (j < sb_nv f s)%nat ->
+    f' <> f \/ s' <> s ->
+    p <= wside f' s' (sb_centre f s i j) + wside f' s' (sb_centre f s i j).
+  Proof.
+    intros Hf Hf' Hi Hj Hne.
+    destruct (plane_axes_facts f Hf) as (Px & Py & Nx & Ny & Hax).
+    pose proof (sb_wall_ok f (sb_coord f s) Hf) as Hok.
+    destruct (Nat.eq_dec f' f) as [E|E].
+    - (* the opposite wall *)
+      subst f'. assert (Hs : s' = negb s) by (destruct Hne as [H|H]; [contradiction|destruct s, s'; try reflexivity; exfalso; apply H; reflexivity]).
+      subst s'. unfold wside. destruct (vget_axis f (sb_centre f s i j) Hf) as (-> & _).
+      unfold sb_centre. rewrite cell_centre_c. unfold sb_coord.
+      apply (tle_trans _ (sb_hi f - sb_lo f)); [apply sb_extent|].
+      assert (H0 : 0 <= sb_hi f - sb_lo f) by (apply (tle_trans _ p); [now apply tlt_le|apply sb_extent]).
+      destruct s; cbn [negb].
+      + replace (sb_hi f - sb_lo f + (sb_hi f - sb_lo f)) with ((sb_hi f - sb_lo f) + (sb_hi f - sb_lo f)) by ring.
+        now apply tle_double.
+      + replace (sb_hi f - sb_lo f + (sb_hi f - sb_lo f)) with ((sb_hi f - sb_lo f) + (sb_hi f - sb_lo f)) by ring.
+        now apply tle_double.
+    - (* an adjacent wall *)
+      destruct (vget_axis f (sb_centre f s i j) Hf) as (_ & Eu & Ev).
+      unfold wside. destruct (Hax f' Hf' E) as [-> | ->].
+      + rewrite Eu. unfold sb_centre.
+        destruct s'.
+        * rewrite <- (sb_col_min f (sb_coord f s) (px f) Hf Px Nx). now apply cell_centre_u_lo.
+        * rewrite <- (sb_col_max f (sb_coord f s) (px f) Hf Px Nx). now apply cell_centre_u_hi.
+      + rewrite Ev. unfold sb_centre.
+        destruct s'.
+        * rewrite <- (sb_col_min f (sb_coord f s) (py f) Hf Py Ny). now apply cell_centre_v_lo.
+        * rewrite <- (sb_col_max f (sb_coord f s) (py f) Hf Py Ny). now apply cell_centre_v_hi.
+  Qed.
+End Box.
